@@ -125,6 +125,15 @@ var schemas = map[string][]field{
 	// the RIB's orchestration (rib/rib.go)
 	"pendingEntry": {{"ni", "ni", kStr}, {"op", "op", kPtrNN("AFTOperationC")}},
 	"KeyRIB":  {},
+	// chk.GetResponseHasEntries
+	"GPrefix": {{"Prefix", "Prefix", kStr}},
+	"GLabel":  {{"LabelUint64", "LabelUint64", kNat}, {"LabelIsUint64", "LabelIsUint64", kBool}},
+	"GId":     {{"Id", "Id", kNat}},
+	"GIndex":  {{"Index", "Index", kNat}},
+	"GAFTEntry": {{"NetworkInstance", "NetworkInstance", kStr}, {"Entry", "Entry", kind{k: "oneof", s: "GEntryKind"}}},
+	"cache": {{"ipv4", "ipv4", kind{k: "map", s: "GAFTEntry", t: []kind{kStr}}}, {"ipv6", "ipv6", kind{k: "map", s: "GAFTEntry", t: []kind{kStr}}},
+		{"mpls", "mpls", kind{k: "map", s: "GAFTEntry", t: []kind{kNat}}}, {"nhg", "nhg", kind{k: "map", s: "GAFTEntry", t: []kind{kNat}}}, {"nh", "nh", kind{k: "map", s: "GAFTEntry", t: []kind{kNat}}}},
+	"GetResponseG": {{"Entry", "Entry", kind{k: "list", s: "GAFTEntry", elemNN: true}}},
 	// the reconciler: both element schemas are the Lean structure ReconEnt, keyed by its string or its number
 	"ReconEntS": {{"Key", "KeyS", kStr}, {"Body", "Body", kNat}},
 	"ReconEntN": {{"Key", "KeyN", kNat}, {"Body", "Body", kNat}},
@@ -170,7 +179,7 @@ var leanStruct = map[string]string{
 	"IPv4EntryC": "IPv4EntryC", "IPv6EntryC": "IPv6EntryC", "LabelEntryC": "LabelEntryC", "NHGEntryC": "NHGEntryC", "NHEntryC": "NHEntryC", "AFTOperationC": "AFTOperationC", "ModifyRequestC": "ModifyRequestC",
 	"AFTErrorDetails": "AFTErrorDetails", "AFTResultC": "AFTResultC", "SessionParametersResult": "SessionParametersResult", "ModifyResponseC": "ModifyResponseC", "PendingOp": "PendingOp",
 	"ElectionReqDetails": "ElectionReqDetails", "SessionParamReqDetails": "SessionParamReqDetails", "OpDetailsResults": "OpDetailsResults", "COpResult": "COpResult",
-	"AFTResultList": "(List AFTResultC)", "Bool": "Bool", "pendingQueue": "PendingQueue", "pendingEntry": "PendingEntry", "RibOpResult": "RibOpResult", "OrigTop": "OrigTop", "OrigNHGMember": "OrigNHGMember", "OrigNHG": "OrigNHG", "KeyRIB": "KeyRIB", "ReconEntS": "ReconEnt", "ReconEntN": "ReconEnt", "ReconAfts": "ReconAfts", "ReconNI": "ReconNI", "ReconOp": "ReconOp", "TblEntry": "TblEntry", "NewElem": "NewElem", "NewAfts": "NewAfts", "NewRIB": "NewRIB", "StringValue": "StringValue", "UintValue": "UintValue", "NewTop": "NewTop", "NewNHGMember": "NewNHGMember", "NewNHG": "NewNHG",
+	"AFTResultList": "(List AFTResultC)", "Bool": "Bool", "pendingQueue": "PendingQueue", "pendingEntry": "PendingEntry", "RibOpResult": "RibOpResult", "OrigTop": "OrigTop", "OrigNHGMember": "OrigNHGMember", "OrigNHG": "OrigNHG", "KeyRIB": "KeyRIB", "GPrefix": "GPrefix", "GLabel": "GLabel", "GId": "GId", "GIndex": "GIndex", "GAFTEntry": "GAFTEntry", "cache": "GetCache", "GetResponseG": "GetResponseG", "ReconEntS": "ReconEnt", "ReconEntN": "ReconEnt", "ReconAfts": "ReconAfts", "ReconNI": "ReconNI", "ReconOp": "ReconOp", "TblEntry": "TblEntry", "NewElem": "NewElem", "NewAfts": "NewAfts", "NewRIB": "NewRIB", "StringValue": "StringValue", "UintValue": "UintValue", "NewTop": "NewTop", "NewNHGMember": "NewNHGMember", "NewNHG": "NewNHG",
 }
 
 func leanType(k kind) string {
@@ -304,6 +313,13 @@ type oneofCase struct {
 var oneofs = map[string][]oneofCase{
 	"FlushNI": {{"*spb.FlushRequest_All", "FlushNI.All", nil}, {"*spb.FlushRequest_Name", "FlushNI.Name", []field{{"Name", "Name", kStr}}}},
 	"GetNI":   {{"*spb.GetRequest_All", "GetNI.All", nil}, {"*spb.GetRequest_Name", "GetNI.Name", []field{{"Name", "Name", kStr}}}},
+	"GEntryKind": {
+		{"*spb.AFTEntry_NextHopGroup", "GEntryKind.NextHopGroup", []field{{"NextHopGroup", "NextHopGroup", kPtr("GId")}}},
+		{"*spb.AFTEntry_NextHop", "GEntryKind.NextHop", []field{{"NextHop", "NextHop", kPtr("GIndex")}}},
+		{"*spb.AFTEntry_Ipv4", "GEntryKind.Ipv4", []field{{"Ipv4", "Ipv4", kPtr("GPrefix")}}},
+		{"*spb.AFTEntry_Ipv6", "GEntryKind.Ipv6", []field{{"Ipv6", "Ipv6", kPtr("GPrefix")}}},
+		{"*spb.AFTEntry_Mpls", "GEntryKind.Mpls", []field{{"Mpls", "Mpls", kPtr("GLabel")}}},
+	},
 	"AFTEntry": {
 		{"*spb.AFTOperation_Ipv4", "AFTEntry.Ipv4", []field{{"Ipv4", "Ipv4", kPtr("IPv4EntryC")}}},
 		{"*spb.AFTOperation_Ipv6", "AFTEntry.Ipv6", []field{{"Ipv6", "Ipv6", kPtr("IPv6EntryC")}}},
@@ -1755,6 +1771,26 @@ func trCall(c *ast.CallExpr, en env) []val {
 	if cl, ok := en.closures[fn]; ok && cl != nil {
 		fail(c.Pos(), "call of the local function %s outside a return statement", fn)
 	}
+	if fn == "make" && len(c.Args) >= 1 {
+		if mt, ok := c.Args[0].(*ast.MapType); ok {
+			if st, ok := mt.Value.(*ast.StarExpr); ok {
+				name := render(st.X)
+				if cur != nil {
+					if a, ok := cur.typeMap[name]; ok {
+						name = a
+					}
+				}
+				if _, ok := schemas[name]; ok {
+					kk := kNat
+					if render(mt.Key) == "string" {
+						kk = kStr
+					}
+					return []val{{lean: "[]", kd: kind{k: "map", s: name, t: []kind{kk}}}}
+				}
+			}
+		}
+		fail(c.Pos(), "make of %s", render(c.Args[0]))
+	}
 	if fn == "uint32" && len(c.Args) == 1 {
 		x := trExpr(c.Args[0], en)
 		if x.kd.k != "nat" && x.kd.k != "u64" {
@@ -2663,6 +2699,20 @@ func trAssign(a *ast.AssignStmt, en env) env {
 	if len(a.Lhs) == 2 && len(a.Rhs) == 1 {
 		if ta, ok := a.Rhs[0].(*ast.TypeAssertExpr); ok && cur != nil {
 			// _, ok := x.(T): whether x has dynamic type T is an oracle named in the specification
+			if ce, ok := ta.X.(*ast.CallExpr); ok {
+				if sel, ok := ce.Fun.(*ast.SelectorExpr); ok {
+					if fname, ok := cur.assertFields[sel.Sel.Name+"().("+render(ta.Type)+")"]; ok {
+						// x.GetF().(*T): whether the oneof F of x holds member T is a field of x's representation
+						if id, isId := a.Lhs[0].(*ast.Ident); !isId || id.Name != "_" {
+							fail(a.Pos(), "type assertion %s", render(ta))
+						}
+						getter := &ast.CallExpr{Fun: &ast.SelectorExpr{X: sel.X, Sel: &ast.Ident{Name: "Get" + fname, NamePos: sel.Sel.Pos()}}, Lparen: ce.Lparen, Rparen: ce.Rparen}
+						vs := trCall(getter, en)
+						bindResult(&en, a.Lhs[1].(*ast.Ident).Name, vs[0], a.Tok == token.DEFINE, a.Pos())
+						return en
+					}
+				}
+			}
 			pn, known := cur.subst[render(ta)]
 			if id, isId := a.Lhs[0].(*ast.Ident); !known || !isId || id.Name != "_" {
 				fail(a.Pos(), "type assertion %s", render(ta))
@@ -2777,6 +2827,29 @@ func trAssign(a *ast.AssignStmt, en env) env {
 			}
 			en.vars[r] = vals[i]
 		case *ast.IndexExpr:
+			if sel, ok := lv.X.(*ast.SelectorExpr); ok {
+				if id, ok := sel.X.(*ast.Ident); ok {
+					if x, ok := en.vars[id.Name]; ok && x.kd.k == "ptr" {
+						if ix, isEntry := mapEntryExprs[x.path]; isEntry {
+							// p.f[k] = v where p was read from a map of pointers and f is a map field:
+							// the entry of the outer map is replaced by a copy with f updated
+							b, bound := en.bound[x.path]
+							if !bound {
+								fail(a.Pos(), "assignment through %s, which may be nil", id.Name)
+							}
+							f := fieldOf(x.kd.s, sel.Sel.Name, a.Pos())
+							v := vals[i]
+							vb, vbound := en.bound[v.path]
+							if f.kd.k != "map" || v.kd.k != "ptr" || v.kd.s != f.kd.s || !vbound {
+								fail(a.Pos(), "the value stored in %s must be a non-nil pointer to %s", render(l), f.kd.s)
+							}
+							k := trExpr(lv.Index, en)
+							mapUpdate(&en, ix.X, ix.Index, "{ "+b+" with "+f.lean+" := Map.insert "+b+"."+f.lean+" "+atom(k.lean)+" "+vb+" }", false, a.Pos())
+							break
+						}
+					}
+				}
+			}
 			if mv, isMap := en.vars[render(lv.X)]; isMap && mv.kd.k == "map" {
 				v := vals[i]
 				b, bound := en.bound[v.path]
@@ -3139,6 +3212,30 @@ func trStmts(list []ast.Stmt, en env, k cont) string {
 		fail(v.Pos(), "defer of %s", render(v.Call.Fun))
 	case *ast.DeclStmt:
 		gd, ok := v.Decl.(*ast.GenDecl)
+		if ok && gd.Tok == token.TYPE {
+			// a local struct type: its fields must be the ones of the schema of the same name
+			for _, sp := range gd.Specs {
+				ts := sp.(*ast.TypeSpec)
+				st, isStruct := ts.Type.(*ast.StructType)
+				fs, known := schemas[ts.Name.Name]
+				if !isStruct || !known {
+					fail(v.Pos(), "local type %s", ts.Name.Name)
+				}
+				var got, want []string
+				for _, fl := range st.Fields.List {
+					for _, n := range fl.Names {
+						got = append(got, n.Name)
+					}
+				}
+				for _, f := range fs {
+					want = append(want, f.goName)
+				}
+				if strings.Join(got, ",") != strings.Join(want, ",") {
+					fail(v.Pos(), "local type %s has fields {%s}, the translator's schema says {%s}", ts.Name.Name, strings.Join(got, ","), strings.Join(want, ","))
+				}
+			}
+			return next(en)
+		}
 		if !ok || gd.Tok != token.VAR {
 			fail(v.Pos(), "declaration")
 		}
